@@ -44,6 +44,24 @@ def tri(rng, batch, n, upper, neg=0):
     return T
 
 
+def expand_full(t, full, nd):
+    """materialised expansion of a tensor with batch shape xb (last nd dims = member) to the batch shape `full`"""
+    return t.expand(*full, *t.shape[t.dim() - nd:]).clone()
+
+
+def shrink(t, xb, nd):
+    """inverse of expand_full: the (*xb, member) tensor an expanded (*full, member) tensor was made from"""
+    full = list(t.shape[:t.dim() - nd])
+    pxb = [1] * (len(full) - len(xb)) + list(xb)
+    for i, (f, x) in enumerate(zip(full, pxb)):
+        if x == 1 and f > 1:
+            t = t.narrow(i, 0, 1)
+    return t.reshape(*xb, *t.shape[t.dim() - nd:]).clone()
+
+
+GENERIC = ("Dense", "OB", "SumBatch", "Cat")      # classes without an inv_quad_logdet override (base-class path)
+
+
 # ----------------------------------------------------------------------------------------- spec tools
 
 def spec_batch(s):
@@ -52,6 +70,10 @@ def spec_batch(s):
         return list(s["A"].shape[:-2])
     if k == "OB":
         return opbuild.shape_of(s["e"])[:-2]
+    if k == "SumBatch":
+        return list(s["A"].shape[:-3])
+    if k == "Cat":
+        return list(dense(s).shape[:-2])
     if k == "Diag":
         return list(s["d"].shape[:-1])
     if k == "CDiag":
@@ -82,6 +104,10 @@ def spec_size(s):
         return s["A"].shape[-1]
     if k == "OB":
         return opbuild.shape_of(s["e"])[-1]
+    if k == "SumBatch":
+        return s["A"].shape[-1]
+    if k == "Cat":
+        return s["parts"][0].shape[-1]
     if k == "Diag":
         return s["d"].shape[-1]
     if k in ("CDiag", "Ident"):
@@ -152,24 +178,41 @@ def build(s, grad=True):
         kk = 2 if s["d"].shape[-1] % 2 == 0 and s["d"].shape[-1] > 1 else 1
         d = s["d"]
         return O.BlockDiagLinearOperator(O.DiagLinearOperator(g(d.reshape(*d.shape[:-1], kk, d.shape[-1] // kk))))
+    n = spec_size(s)
+
+    def xp(op):        # "xb": the operator is built on the smaller batch shape xb and expanded (LinearOperator.expand)
+        return op.expand(*spec_batch(s), n, n) if "xb" in s else op
+
+    def sh(t, nd):
+        return shrink(t, s["xb"], nd) if "xb" in s else t
     if k == "Dense":
-        return O.DenseLinearOperator(g(s["A"]))
+        return xp(O.DenseLinearOperator(g(sh(s["A"], 2))))
     if k == "OB":
         op = opbuild.build(s["e"], F64)
         if grad:
             op.requires_grad_(True)
         return op
+    if k == "SumBatch":
+        A, bd = s["A"], s.get("bd", -3)
+        if bd == -3:
+            return O.SumBatchLinearOperator(O.DenseLinearOperator(g(A)))
+        return O.SumBatchLinearOperator(O.DenseLinearOperator(g(A.movedim(-3, bd).contiguous())), block_dim=bd)
+    if k == "Cat":
+        return O.CatLinearOperator(*[O.DenseLinearOperator(g(p)) for p in s["parts"]], dim=s["dim"])
     if k == "Diag":
-        return O.DiagLinearOperator(g(s["d"]))
+        return xp(O.DiagLinearOperator(g(sh(s["d"], 1))))
     if k == "CDiag":
-        return O.ConstantDiagLinearOperator(g(s["c"]), diag_shape=s["n"])
+        return xp(O.ConstantDiagLinearOperator(g(sh(s["c"], 1)), diag_shape=s["n"]))
     if k == "Ident":
-        return O.IdentityLinearOperator(s["n"], batch_shape=torch.Size(s["batch"]), dtype=F64)
+        return xp(O.IdentityLinearOperator(s["n"], batch_shape=torch.Size(s["xb"] if "xb" in s else s["batch"]), dtype=F64))
     if k == "Tri":
         return O.TriangularLinearOperator(g(s["T"]), upper=s["upper"])
     if k == "Chol":
-        return O.CholLinearOperator(O.TriangularLinearOperator(g(s["T"]), upper=s["upper"]), upper=s["upper"])
+        return xp(O.CholLinearOperator(O.TriangularLinearOperator(g(sh(s["T"], 2)), upper=s["upper"]), upper=s["upper"]))
     if k == "Kron":
+        if "fxb" in s:     # factors with different (broadcasting) batch shapes
+            return O.KroneckerProductLinearOperator(
+                *[O.DenseLinearOperator(g(shrink(f, xb, 2))) for f, xb in zip(s["fs"], s["fxb"])])
         return O.KroneckerProductLinearOperator(*[O.DenseLinearOperator(g(f)) for f in s["fs"]])
     if k == "KPAD":
         kron = O.KroneckerProductLinearOperator(*[O.DenseLinearOperator(g(f)) for f in s["fs"]])
@@ -187,6 +230,8 @@ def build(s, grad=True):
         return O.SumKroneckerLinearOperator(a, b)
     if k == "Block":
         cls = O.BlockInterleavedLinearOperator if s["il"] else O.BlockDiagLinearOperator
+        if s.get("bd", -3) != -3:      # block dimension not last among the batch dimensions (dense base only)
+            return cls(O.DenseLinearOperator(g(s["base"]["A"].movedim(-3, s["bd"]).contiguous())), block_dim=s["bd"])
         return cls(build(s["base"], grad))
     if k == "Repeat":
         return O.BatchRepeatLinearOperator(build(s["base"], grad), batch_repeat=torch.Size(s["rep"]))
@@ -217,6 +262,10 @@ def dense(s):
         return s["A"].clone()
     if k == "OB":
         return opbuild.dense(s["e"], F64)
+    if k == "SumBatch":
+        return s["A"].sum(-3)
+    if k == "Cat":
+        return torch.cat([p.clone() for p in s["parts"]], dim=s["dim"])
     if k == "Diag":
         return torch.diag_embed(s["d"])
     if k == "CDiag":
@@ -307,7 +356,7 @@ def leaf_lit(s, pc=None):
     k = s["k"]
     bs = spec_batch(s)
     B = int(math.prod(bs))
-    if k in ("Dense", "OB", "SumKron"):
+    if k in GENERIC or k == "SumKron":
         A = dense(s)
         n = A.shape[-1]
         Ms = members(A, 2)
